@@ -4,6 +4,7 @@ form whose encoding intersects the trace's path condition, the final architectur
 state, the ordered memory effects, the fetch count, the cost terms and the returned
 charge must agree for ALL values (BDD equality under the care set)."""
 import bv
+from bdd import BddBudget
 import spec
 from interp import Enum, Int, SymArr, Opaque
 import models
@@ -119,6 +120,7 @@ class IsaCheck:
         self.w0 = w0
         self.findings = {}
         self.last_full = None
+        self.last_code = None
         self.obligations = 0
         self.discharged = 0
         self.samples = []
@@ -160,7 +162,15 @@ class IsaCheck:
         full = self.last_full if self.last_full not in (None, 0) else cond
         if full not in (None, 0, 1):
             detail["extent"] = self.extent(full)
+        if self.last_code is not None:
+            # signature of what the emulator computes (per-bit weight of the code-side value on the care set):
+            # a known finding is identified by WHICH inputs fail (extent) and by WHAT is computed instead (behaviour)
+            import hashlib
+            vec, care_ = self.last_code
+            sig = ",".join(self.extent(bv.M.AND(x, care_)) if x > 1 else str(x) for x in vec)
+            detail["behaviour"] = hashlib.sha1(sig.encode()).hexdigest()[:12]
         self.last_full = None
+        self.last_code = None
         self.findings[key] = Finding(props, key, form, aspect, msg, wit, detail)
 
     def extent(self, d):
@@ -219,11 +229,21 @@ class IsaCheck:
                         break
         self.count(d == 0)
         if d != 0:
+            # the complete difference is only used to describe the finding (extent, behaviour signature);
+            # it is computed under a node budget and falls back to the deciding bit's difference
             full = 0
-            for x, y in zip(a, b):
-                if x != y:
-                    full = Mx.OR(full, Mx.AND(Mx.XOR(x, y), care))
+            Mx.limit = len(Mx.var) + 400000
+            try:
+                for x, y in zip(a, b):
+                    if x != y:
+                        full = Mx.OR(full, Mx.AND(Mx.XOR(x, y), care))
+            except BddBudget:
+                full = d
+                self.budget_hits = getattr(self, "budget_hits", 0) + 1
+            finally:
+                Mx.limit = None
             self.last_full = full
+            self.last_code = (tuple(a), care)
         return d
 
     def decide_with_arrays(self, d):
@@ -320,6 +340,13 @@ class IsaCheck:
         fs["ok"] += 1
         cpu = st.mem[("h", "cpu")]
         fi = self.isa.fi
+        # no instruction of the manual reads or changes the set of pending interrupt requests
+        irq = [e for e in st.eff if e[0] == "irq"]
+        self.cls = semcls
+        self.count(not irq)
+        if irq:
+            self.add((fam_props or ["C07"]) + ["C10"], f.name, "irq-queue", "%s %s the interrupt request queue: its effect depends on (or changes) which requests are pending, the manual's does not"
+                     % (f.name, "/".join(sorted(set(e[1] for e in irq)))), care)
         # (a) length
         self.cls = "decode"
         nf = st.ctr.get("fetch", 0)
